@@ -257,6 +257,8 @@ pub(crate) enum ExprErrorKind {
     DivisionByZero,
     #[error("random({0}): the bound must be at least 2")]
     EmptyRandomRange(i64),
+    #[error("The function {0} is not implemented")]
+    FunctionNotImplemented(&'static str),
 }
 
 /// Could not construct static iterator
